@@ -116,6 +116,12 @@ fn run_degenerate(cx: &mut CaseCx, _case: &Value) {
     ("two y", [e("3"), e("5"), e("6")].concat()),
     ("x = 0", [e("0"), e("5")].concat()),
     ("x = p-1", [e("340282366920938463463374607431768223906"), e("5")].concat()),
+    // y just above 2^128 (129-bit elements): the interpolated secret has a non-zero 17th byte
+    ("y = 2^128", [e("1"), e("340282366920938463463374607431768211456")].concat()),
+    ("y = 2^128, other x", [e("2"), e("340282366920938463463374607431768211456")].concat()),
+    ("y = 2^128+5", [e("3"), e("340282366920938463463374607431768211461")].concat()),
+    ("y = p-1", [e("4"), e("340282366920938463463374607431768223906")].concat()),
+    ("y = p-1, other x", [e("5"), e("340282366920938463463374607431768223906")].concat()),
   ];
   let thresholds = [0u32, 1, 2, 3, u32::MAX];
   let mut shares: Vec<(String, adss::Share)> = vec![];
@@ -284,6 +290,75 @@ fn run_server_eval(cx: &mut CaseCx, _case: &Value) {
   }
   cx.outcome("Server::eval");
   cx.sample(json!({"points": pts.len(), "undecodable": pts.iter().filter(|p| !p.2).count()}));
+}
+
+
+/// every short history of punctures, evaluations and state imports on a small server: no panic anywhere
+fn run_server_histories(cx: &mut CaseCx, case: &Value) {
+  cx.entropy(5);
+  let tags = [0u8, 2, 128, 130, 255];
+  let base = pp::Server::new(tags.to_vec()).expect("server");
+  let other = {
+    // a smaller key state of another lineage, to import
+    let mut s = pp::Server::new(vec![0, 2]).expect("server");
+    let _ = s.puncture(0);
+    bincode::serialize(&s.get_private_key()).expect("export")
+  };
+  let (pt, _) = pp::Client::blind(b"h");
+  #[derive(Clone, Copy, Debug)]
+  enum A {
+    P(u8),
+    E(u8),
+    V(u8),
+    Import,
+    ImportSelf,
+  }
+  let mut alpha: Vec<A> = vec![];
+  for &t in &tags {
+    alpha.push(A::P(t));
+    alpha.push(A::E(t));
+  }
+  alpha.push(A::V(2));
+  alpha.push(A::V(128));
+  alpha.push(A::Import);
+  alpha.push(A::ImportSelf);
+  let first = case["first"].as_u64().unwrap() as usize;
+  let depth = case["depth"].as_u64().unwrap() as usize;
+  let mut stop = false;
+  for_each_seq(alpha.len(), depth - 1, |rest| {
+    if stop {
+      return;
+    }
+    let mut s = base.clone();
+    let snapshot = bincode::serialize(&base.get_private_key()).expect("export");
+    let seq: Vec<A> = std::iter::once(alpha[first]).chain(rest.iter().map(|&i| alpha[i])).collect();
+    cx.eval();
+    cx.nontrivial(fnv_str(&format!("{:?}", seq)));
+    for (k, a) in seq.iter().enumerate() {
+      let r = match a {
+        A::P(t) => guard(|| s.puncture(*t).is_ok()),
+        A::E(t) => guard(|| s.eval(&pt, *t, false).is_ok()),
+        A::V(t) => guard(|| s.eval(&pt, *t, true).is_ok()),
+        A::Import => guard(|| {
+          let st: pp::ServerKeyState = bincode::deserialize(&other).expect("state");
+          s.set_private_key(st);
+          true
+        }),
+        A::ImportSelf => guard(|| {
+          let st: pp::ServerKeyState = bincode::deserialize(&snapshot).expect("state");
+          s.set_private_key(st);
+          true
+        }),
+      };
+      if let Err(p) = r {
+        cx.viol("C09/panic/Server-history", format!("step {} of the history {:?} panicked: {}", k, seq, p.chars().take(160).collect::<String>()), json!({"entry": "Server::eval / puncture / set_private_key", "history": format!("{:?}", seq), "step": k}));
+        stop = true;
+        return;
+      }
+    }
+    cx.count("histories", 1);
+  });
+  cx.outcome("server histories");
 }
 
 fn run_verify(cx: &mut CaseCx, _case: &Value) {
@@ -522,7 +597,7 @@ pub fn spec() -> PropSpec {
       },
       Check {
         name: "degenerate-values",
-        rule: "structurally valid but degenerate shares (no y, one y, two y, x=0, x=p-1) x thresholds {0,1,2,3,2^32-1} x empty/32-byte C,D: the empty list, every single share and every ordered pair through adss::recover, share_recover, group_shares and Sharks::recover",
+        rule: "structurally valid but degenerate shares (no y, one y, two y, x=0, x=p-1, y in [2^128, p) on constant polynomials) x thresholds {0,1,2,3,2^32-1} x empty/32-byte C,D: the empty list, every single share and every ordered pair through adss::recover, share_recover, group_shares and Sharks::recover",
         gen: |_| vec![json!({})],
         run: run_degenerate,
         min_counts: &[("degenerate_shares", 40), ("degenerate_rejected", 100)],
@@ -540,6 +615,13 @@ pub fn spec() -> PropSpec {
         gen: |_| vec![json!({})],
         run: run_server_eval,
         min_counts: &[("eval_ok", 10), ("eval_err", 100)],
+      },
+      Check {
+        name: "server-histories",
+        rule: "server with tags {0,2,128,130,255}: EVERY history of length <= 4 (thorough 5) over {puncture(t), eval(t), verifiable eval(2|128), import of a smaller foreign key state, re-import of the initial state}: no step may panic (evaluation of a blinded point is a listed entry point; its behaviour depends on the key's history)",
+        gen: |tier| (0..14u64).map(|f| json!({"first": f, "depth": if tier.thorough() { 5 } else { 4 }})).collect(),
+        run: run_server_histories,
+        min_counts: &[("histories", 10_000)],
       },
       Check {
         name: "Client::verify",
